@@ -262,7 +262,8 @@ class AbstractDistribution(eqx.Module):
             leading_cond_shape = ()
         key_shape = sample_shape + leading_cond_shape
         key_size = max(1, prod(key_shape))  # Still need 1 key for scalar sample
-        return jnp.reshape(jr.split(key, key_size), (*key_shape, 2))
+        keys = jr.split(key, key_size)[: prod(key_shape)]  # No keys if an extent is 0
+        return jnp.reshape(keys, (*key_shape, 2))
 
 
 class AbstractTransformed(AbstractDistribution):
